@@ -6,7 +6,7 @@ from lib.coqterm import cbytes, cbool, cN, clist, copt, hx, unhx
 
 ID = "C19"
 QUICK_N = 2000
-THOROUGH_N = 20000
+THOROUGH_N = 16000
 SHARD = 200
 RULE = ("35% hdr: byte strings for NextLayer._get_host_header built from an HTTP token dictionary (request lines, Host field "
         "lines with every OWS/case/obs-fold variant, empty values, bare CR/LF, VT/FF, non-ASCII) incl. truncations and random "
